@@ -89,6 +89,12 @@ const (
 	kAppendAlias    = "append-extends-operand"
 	kSubsliceCopy   = "byte-subslice-copy"
 	kStringRunes    = "string-range-bytes"
+	// what a review of the repairs found left over (the repairs covered one of several code paths)
+	kSelectorTwice   = "compound-assign-selector-operand-twice"
+	kTupleMultiRet   = "tuple-assign-multi-value-call"
+	kAppendNilBytes  = "append-nil-byte-slice"
+	kTupleDeref      = "tuple-assign-deref-field"
+	kImportedFuncVal = "imported-func-value"
 )
 
 type vinfo struct {
@@ -204,6 +210,12 @@ type gen struct {
 	// markV: the trace g8 of the deferred calls (side.go), markFn: the helper mark is called somewhere
 	markV  *vinfo
 	markFn bool
+	// tickpFn / tick2Fn: the helpers tickp / tick2 are called somewhere (side.go)
+	tickpFn bool
+	tick2Fn bool
+	// libFuncs: the functions of the imported package (when the program may have one), libUsed: some statement uses one
+	libFuncs []Func
+	libUsed  bool
 }
 
 func (g *gen) mark(s string) { g.feat[s] = true }
